@@ -12,7 +12,10 @@ import (
 	"errors"
 	"fmt"
 	"github.com/anishathalye/porcupine"
+	bufcli "github.com/bufbuild/buf/private/buf/cmd/buf"
 	"github.com/bufbuild/buf/private/bufpkg/bufmodule/bufmodulestore"
+	"github.com/bufbuild/buf/private/pkg/app"
+	"github.com/bufbuild/buf/private/pkg/app/appcmd"
 	"github.com/bufbuild/buf/private/pkg/filelock"
 	"github.com/bufbuild/verif/modgen"
 	"io"
@@ -1932,6 +1935,32 @@ func (m *sim) stepCachedModule() {
 	m.s.Probe("cached-module-files-dir")
 }
 
+// stepCLIPath: a --path value of the real `buf build` command that leaves the input directory is
+// refused, however it is spelled.
+func (m *sim) stepCLIPath() {
+	p := m.hostile()
+	_, esc := resolve(p)
+	input := filepath.Join(m.root, "cliws")
+	arg := input + "/" + p
+	if strings.HasPrefix(p, "/") {
+		arg = p
+	}
+	out := filepath.Join(m.root, "cliws-out.binpb")
+	var stdout, stderr bytes.Buffer
+	env := map[string]string{"HOME": filepath.Join(m.root, "clihome"), "BUF_CACHE_DIR": filepath.Join(m.root, "clicache"), "PATH": ""}
+	container := app.NewContainer(env, strings.NewReader(""), &stdout, &stderr, "buf", "build", input, "--path", arg, "-o", out)
+	err := appcmd.Run(m.ctx, container, bufcli.NewRootCommand("buf"))
+	_ = os.Remove(out)
+	m.s.Event("cli --path %q -> err=%v", p, err != nil)
+	if esc {
+		m.hostileSeen["cli-path:"+p] = struct{}{}
+		if err == nil {
+			m.violate("escape-rejected", "cli-path", "buf build accepted --path %q although it leaves the input directory", arg[len(m.root):])
+		}
+	}
+	m.s.Probe("cli-path-values")
+}
+
 // stepConfigDirs: directories supplied by configuration files (workspace directories, module
 // paths, exclude paths) are confined to the directory of the configuration file.
 func (m *sim) stepConfigDirs() {
@@ -2252,6 +2281,11 @@ func Run(tp *tape.Tape, env *engine.Env) *engine.Outcome {
 			_ = os.WriteFile(filepath.Join(b.guard, "sib", "n"), []byte("sibling dir of "+b.name), 0o644)
 		}
 	}
+	// a tiny workspace for the command-line step (part of the surroundings that must not change)
+	_ = os.MkdirAll(filepath.Join(m.root, "cliws", "a"), 0o755)
+	_ = os.WriteFile(filepath.Join(m.root, "cliws", "buf.yaml"), []byte("version: v2\n"), 0o644)
+	_ = os.WriteFile(filepath.Join(m.root, "cliws", "a", "a.proto"), []byte("syntax = \"proto3\";\npackage a;\nmessage A {}\n"), 0o644)
+	_ = os.WriteFile(filepath.Join(m.root, "secret.proto"), []byte("syntax = \"proto3\";\npackage secret;\nmessage S {}\n"), 0o644)
 	m.sentinel = m.outside()
 	var labels []string
 	for _, v := range m.views {
@@ -2314,7 +2348,7 @@ func Run(tp *tape.Tape, env *engine.Env) *engine.Outcome {
 				m.stepPluginResponse(v)
 			}
 		case op == 19 && tp.Draw("special19", 4) == 3:
-			switch tp.Draw("which19", 9) {
+			switch tp.Draw("which19", 10) {
 			case 0:
 				name = "foreign-archive"
 				m.stepForeignArchive()
@@ -2333,6 +2367,9 @@ func Run(tp *tape.Tape, env *engine.Env) *engine.Outcome {
 			case 6, 7:
 				name = "filter-hidden"
 				m.stepFilterHidden()
+			case 8:
+				name = "cli-path"
+				m.stepCLIPath()
 			default:
 				name = "concurrent"
 				m.stepConcurrent()
